@@ -189,6 +189,30 @@ ThickDrain(t, acc) == LET r == ThickNext(t) IN IF r[1] THEN ThickDrain(r[3], App
 \* the point sequence of Styled<Line>::pixels() for stroke width w >= 1 (styled.rs:22-45)
 ThickSeq(s, e, w) == ThickDrain(ThickInit(s, e, w), <<>>)
 ---------------------------------------------------------------------------
+(* TRANSCRIBED: Line::extents (line/mod.rs:110-173) for StrokeOffset::None and *)
+(* the styled bounding box of a line (line/styled.rs:71-88).  The extents are  *)
+(* the outermost right / left parallels the ParallelsIterator produces; an     *)
+(* "extra" parallel is one step shorter (`reduce`).                            *)
+RECURSIVE ExtLoop(_, _, _, _)
+ExtLoop(it, nextIsRight, l, r) ==                                                        \* :124-136
+  LET n == ParNext(it) IN
+  IF ~n[1] THEN <<l, r>>
+  ELSE IF nextIsRight THEN ExtLoop(n[3], FALSE, l, <<n[2].b.pt, n[2].kind>>)
+       ELSE ExtLoop(n[3], TRUE, <<n[2].b.pt, n[2].kind>>, r)
+\* << left line, right line >>, each << start, end >>
+ExtentsT(s, e, w) ==
+  LET it     == ParInit(s, e, w)
+      reduce == PAdd(it.par.psMajor, it.par.psMinor)                                     \* :116-117
+      lr     == ExtLoop(it, TRUE, <<s, "N">>, <<s, "N">>)
+      delta  == PSub(e, s)
+      Mk(x)  == <<x[1], PSub(PAdd(x[1], delta), IF x[2] = "E" THEN reduce ELSE <<0, 0>>)>>  \* :154-170
+  IN <<Mk(lr[1]), Mk(lr[2])>>
+LineStyledBoxT(s, e, w) ==
+  LET x == ExtentsT(s, e, w)  a == x[1][1]  b == x[1][2]  c == x[2][1]  d == x[2][2]
+      lo == <<Min(Min(a[1], b[1]), Min(c[1], d[1])), Min(Min(a[2], b[2]), Min(c[2], d[2]))>>
+      hi == <<Max(Max(a[1], b[1]), Max(c[1], d[1])), Max(Max(a[2], b[2]), Max(c[2], d[2]))>>
+  IN <<lo[1], lo[2], hi[1] - lo[1] + 1, hi[2] - lo[2] + 1>>                              \* Rectangle::with_corners
+---------------------------------------------------------------------------
 (* TRANSCRIBED: polyline::Points (src/primitives/polyline/points.rs)          *)
 (* state [verts (the slice still to be visited), tr (translate), seg]         *)
 \* Points::new (points.rs:20-44)
